@@ -624,5 +624,32 @@ class Life(pipeline.Stream):
         return []
 
 
+from harness.pool_support import common as PC     # noqa: E402
+
+
+def _pool_oracle(case, o):
+    bad = PC.oracle_c09(case, o) or PC.oracle_c11(case, o)
+    return None if bad is None else ("C12:request-pool:" + bad[0], bad[1])
+
+
+class PoolDependency(PC.PoolStream):
+    """"no lost or duplicated executions" and "every worker of the request pool it stops terminates" are, for the
+    pooled server, the thread pool's guarantees (Props/C09.v, Props/C11.v) composed with the server's one
+    enqueue per accepted request: the pool model is re-validated here against the real ThreadPool in lock-step
+    under the controlled scheduler, judged by the exactly-once and join/stop oracles."""
+    name = "pool"
+    n_quick = 120
+    n_thorough = 1500
+    oracle_fn = staticmethod(_pool_oracle)
+
+
+class BoundedPool(PC.BoundedStream):
+    """user-supplied pools with a bounded queue: implementation + oracle only"""
+    name = "pool-bounded"
+    n_quick = 60
+    n_thorough = 600
+    oracle_fn = staticmethod(_pool_oracle)
+
+
 def streams():
-    return [Handler(), Sockets(), Life()]
+    return [Handler(), Sockets(), Life(), PoolDependency(), BoundedPool()]
